@@ -43,6 +43,8 @@ def setup(cfg, root):
     shutil.rmtree(root, ignore_errors=True)
     for d in ["bp", "platform", "layers", "app", "out", "bin", "plandir"]:
         os.makedirs(os.path.join(root, d))
+    if cfg.get("bp_form") == "symlink":
+        os.symlink("bp", os.path.join(root, "bplink"))
     for n in {"detect", "build", "other", exe_file(cfg)}:
         os.symlink(TESTBP, os.path.join(root, "bin", n))
     if cfg["desc"] != "missing":
@@ -136,8 +138,17 @@ def run_one(cfg, root):
     n = cfg["nargs"]
     args = (full + ["extra1", "extra2", "extra3"])[:n]
     env = {"PATH": "/usr/bin:/bin", "VERIF_BP_CONTROL": os.path.join(root, "control.json"), "VERIF_BP_OUT": os.path.join(root, "out")}
+    # the lifecycle also exports the paths it passes as arguments (buildpack API >= 0.8); libcnb reads its arguments only
+    env["CNB_PLATFORM_DIR"] = os.path.join(root, "platform")
+    env["CNB_APP_DIR"] = os.path.join(root, "app")
+    if is_build:
+        env["CNB_LAYERS_DIR"] = os.path.join(root, "layers")
+        env["CNB_BP_PLAN_PATH"] = plan_path
+    else:
+        env["CNB_BUILD_PLAN_PATH"] = plan_path
+    bp_env = {"symlink": os.path.join(root, "bplink"), "dotdot": os.path.join(root, "bp", "..", "bp")}.get(cfg.get("bp_form"), os.path.join(root, "bp"))
     if cfg["bpdir"]:
-        env["CNB_BUILDPACK_DIR"] = os.path.join(root, "bp")
+        env["CNB_BUILDPACK_DIR"] = bp_env
     vals = cfg.get("env_values", {})
     for k, var in [("os", "CNB_TARGET_OS"), ("arch", "CNB_TARGET_ARCH"), ("variant", "CNB_TARGET_ARCH_VARIANT"),
                    ("dname", "CNB_TARGET_DISTRO_NAME"), ("dver", "CNB_TARGET_DISTRO_VERSION")]:
@@ -156,7 +167,7 @@ def run_one(cfg, root):
         q = os.path.join(root, "out", name)
         return os.path.getsize(q) if os.path.exists(q) else 0
     o = {"exit": p.returncode, "detect_entered": count("detect_entered"), "build_entered": count("build_entered"),
-         "on_error": count("on_error"), "stderr": p.stderr.decode("utf-8", "replace")[-300:]}
+         "on_error": count("on_error"), "stderr": p.stderr.decode("utf-8", "replace")[-300:], "bp_env": bp_env}
     o["plan"] = classify(plan_path, pre, EXPECTED_PLANS.get(cfg["det"], EXPECTED_PLAN)) if not is_build else "n/a"
     if not is_build and o["plan"] == "other":
         try:
@@ -173,7 +184,8 @@ def run_one(cfg, root):
                 o["store"] = "pre"
             else:
                 try:
-                    o["store"] = "new" if tomllib.loads(now.decode()) == EXPECTED_STORE else "other"
+                    want = {"metadata": {}} if cfg["build"].get("store") == "empty" else EXPECTED_STORE
+                    o["store"] = "new" if tomllib.loads(now.decode()) == want else "other"
                 except Exception:
                     o["store"] = "other"
         o["bsboms"] = {k: classify(os.path.join(root, "layers", f"build.sbom.{s}"), pre, expected_bytes=f"build-{k}".encode()) for k, s in FMT_FILE.items()}
